@@ -32,6 +32,7 @@ func init() {
 			{Name: "fixed-trim-then-commit", N: core.TierN(100, 4000), Batch: 25, Run: c04TrimThenCommit},
 			{Name: "sustained-traffic", N: core.TierN(24, 960), Batch: 6, Run: c04Sustained},
 			{Name: "fixed-consumed-prefix", N: core.TierN(60, 2400), Batch: 10, Run: c04FixedPrefix},
+			{Name: "commit-during-cleaner-evaluation", N: core.TierN(80, 3200), Batch: 10, Run: c04DuringCleaner},
 		},
 	})
 }
@@ -288,7 +289,9 @@ func c04Directed(c *core.Ctx) {
 
 func c04Fixed(c *core.Ctx) {
 	max := 1 + c.Rng.IntN(8)
-	cs := cleanerSpec{Fixed: true, Max: max, Target: c.Rng.IntN(max + 1)}
+	// target <= max, including negative targets (the forced trim then asks for more than the buffer holds, which a
+	// cleaner may do: the shift is applied as far as possible)
+	cs := cleanerSpec{Fixed: true, Max: max, Target: c.Rng.IntN(max+4) - 3}
 	cooldown := core.Pick(c.Rng, 0, 200*time.Microsecond, 2*time.Millisecond)
 	b := newBuffer(cs, cooldown, nil)
 	defer b.Close()
@@ -614,4 +617,104 @@ func c04Sustained(c *core.Ctx) {
 	c.Count("evicted_during_traffic", off)
 	c.Nontrivial()
 	c.Sig("sustained", cooldown, gap, k)
+}
+
+// c04DuringCleaner: the cleaner function itself is the window. A pass-through cleaner (DefaultCleaner or a fixed one
+// underneath) holds one of its evaluations open; meanwhile the last commit (or the close) of the slowest consumer is
+// attempted from another goroutine; then the evaluation is let go and nothing else ever happens. Whether the commit
+// had to wait for the evaluation or was admitted during it, the prefix it released must be gone within the bound.
+func c04DuringCleaner(c *core.Ctx) {
+	cooldown := core.Pick(c.Rng, 0, 0, 300*time.Microsecond, 2*time.Millisecond)
+	action := core.Pick(c.Rng, "commit", "commit", "close")
+	nCons := 1 + c.Rng.IntN(3)
+	if action == "close" && nCons == 1 {
+		nCons = 2 // the statement speaks of buffers with at least one OPEN consumer: somebody must stay
+	}
+	n := 2 + c.Rng.IntN(6)
+	gate := core.NewGate()
+	var armed atomic.Bool
+	var evals atomic.Int64
+	b := newBuffer(cleanerSpec{}, cooldown, func(inner bigbuff.Cleaner) bigbuff.Cleaner {
+		return func(size int, offsets []int) int {
+			evals.Add(1)
+			if armed.CompareAndSwap(true, false) {
+				gate.Enter(3000) // one evaluation is held open (falls through after the bound)
+			}
+			return inner(size, append([]int(nil), offsets...))
+		}
+	})
+	defer b.Close()
+	var conss []bigbuff.Consumer
+	for i := 0; i < nCons; i++ {
+		cons, err := b.NewConsumer()
+		if err != nil {
+			c.Violate("newconsumer-error", "%v", err)
+			return
+		}
+		conss = append(conss, cons)
+	}
+	defer func() {
+		for _, cons := range conss {
+			cons.Rollback()
+		}
+	}()
+	vals := make([]interface{}, n)
+	for i := range vals {
+		vals[i] = i
+	}
+	b.Put(context.Background(), vals...)
+	// every consumer reads everything; all but the first commit right away
+	for i, cons := range conss {
+		for j := 0; j < n; j++ {
+			if _, err := cons.Get(context.Background()); err != nil {
+				c.Violate("get-error", "%v", err)
+				return
+			}
+		}
+		if i > 0 {
+			cons.Commit()
+		}
+	}
+	time.Sleep(cooldown*2 + 200*time.Microsecond) // let the passes triggered so far finish (nothing can be reclaimed yet)
+	if sz := b.Size(); sz != n {
+		c.Violate("over-reclaimed", "buffer holds %d values but consumer 0 has committed nothing of %d", sz, n)
+		return
+	}
+	// arm the gate and wake the cleanup goroutine with an operation that makes nothing reclaimable: one more value,
+	// which nobody reads (it stays in the buffer to the end)
+	armed.Store(true)
+	b.Put(context.Background(), n)
+	window := gate.WaitArrived(3000)
+	acted := core.Go(func() {
+		if action == "commit" {
+			conss[0].Commit()
+		} else {
+			conss[0].Rollback()
+			conss[0].Close()
+		}
+	})
+	time.Sleep(time.Duration(100+c.Rng.IntN(300)) * time.Microsecond)
+	duringEval := false
+	select {
+	case <-acted:
+		duringEval = true // the commit was admitted while the cleaner was being evaluated
+	default:
+	}
+	gate.Release()
+	desc := fmt.Sprintf("%d consumers, %d values, cooldown %s, last %s of the slowest consumer attempted while a cleaner evaluation was held open (admitted during it: %v, window entered: %v)", nCons, n, cooldown, action, duringEval, window)
+	if !core.AwaitDone(acted, 10000) {
+		c.Violate("commit-blocked", "the %s did not return; %s", action, desc)
+		c.SetDump(core.DumpAll())
+		return
+	}
+	awaitReclaim(c, b, 1, cooldown, desc)
+	c.Op("commit", nCons)
+	c.Op("cleaner_evaluation", int(evals.Load()))
+	if window {
+		c.Nontrivial()
+		c.R.WinHit++
+	} else {
+		c.R.WinMissed++
+	}
+	c.Sig("during-cleaner", nCons, cooldown, action, duringEval, window)
 }
